@@ -7,7 +7,7 @@ import itertools
 from sa.astx import NotConst, const_eval, dotted, module_consts, src
 from sa.selftest import Mutant, Silent
 from sa.source import AnalysisError
-from sa.props._lib_a import (DEFER, Q, group, attr_of, avoiding_path, call_nodes, calls_of, const_int, exc_escape, catching_handlers, facts,
+from sa.props._lib_a import (inlined_func, DEFER, Q, group, attr_of, avoiding_path, call_nodes, calls_of, const_int, exc_escape, catching_handlers, facts,
                              handler_names, ident_fact, is_const, is_name, known_bool, known_ident, known_none, kw, method_call,
                              name_assign_nodes, no_exc, params, passes_between, stmt_nodes, succ_on, targets_values)
 
@@ -66,6 +66,15 @@ class _CbEval:
         if isinstance(e, ast.Constant):
             return e.value
         if isinstance(e, ast.Name):
+            for ev_ in reversed(trace):          # named temporaries of this path
+                if ev_[0] == "let" and ev_[1] == e.id:
+                    return ev_[2]
+                if ev_[0] == "alias" and ev_[1] == e.id:
+                    return self.ev(ast.Name(id=ev_[2], ctx=ast.Load()), env, [])
+                if ev_[0] == "expr" and ev_[1] == e.id:
+                    return self.ev(ev_[2], env, [])
+                if ev_[0] == "forget" and ev_[1] == e.id:
+                    raise _Unknown(e.id)
             if e.id == self.p_flag:
                 return env["succeeded"]
             if e.id in self.consts:
@@ -119,12 +128,28 @@ class _CbEval:
             if node.kind == "for":
                 raise AnalysisError("C04: loop in _cbDeferred; path evaluation not applicable")
             if node.kind == "stmt":
+                for t_, v_ in targets_values(node.ast):
+                    if isinstance(t_, ast.Name):
+                        try:
+                            if v_ is None:
+                                raise _Unknown(t_.id)
+                            trace.append(("let", t_.id, self.ev(v_, env, trace)))
+                        except _Unknown:
+                            params_ = (self.p_result, self.p_index, self.p_flag)
+                            if isinstance(v_, ast.Name) and (v_.id in params_ or self._alias(v_.id, trace) in params_):
+                                trace.append(("alias", t_.id, self._alias(v_.id, trace)))
+                            elif v_ is not None:
+                                trace.append(("expr", t_.id, self._norm(v_, trace)))     # a named temporary: seen through where it is used
+                            else:
+                                trace.append(("forget", t_.id))
                 self._events(node.ast, trace)
+                if trace and trace[-1][0] in ("return", "store", "fire"):
+                    trace[-1] = tuple(self._norm(x, trace) if isinstance(x, ast.AST) else x for x in trace[-1])
                 if trace and trace[-1][0] == "return":
                     v = trace[-1][1]
                     try:
                         while isinstance(v, ast.IfExp):
-                            v = v.body if self.ev(v.test, env, []) else v.orelse
+                            v = v.body if self.ev(v.test, env, trace) else v.orelse
                         trace[-1] = ("return", v)
                     except _Unknown:
                         pass
@@ -143,6 +168,31 @@ class _CbEval:
                     continue
                 stack.append((d, trace, depth + 1))
         return out
+
+    def _alias(self, name, trace):
+        """the parameter a local currently stands for (plain copies only), else the name itself"""
+        for ev_ in reversed(trace):
+            if ev_[0] in ("let", "forget", "expr") and ev_[1] == name:
+                return name
+            if ev_[0] == "alias" and ev_[1] == name:
+                return ev_[2]
+        return name
+
+    def _norm(self, expr, trace):
+        """copy of an expression with locals that are plain copies of a parameter replaced by that parameter"""
+        ev = self
+
+        class T(ast.NodeTransformer):
+            def visit_Name(self, n):
+                for ev_ in reversed(trace):
+                    if ev_[0] == "expr" and ev_[1] == n.id and isinstance(n.ctx, ast.Load):
+                        return clone(ev_[2])
+                    if ev_[0] in ("let", "forget", "alias") and ev_[1] == n.id:
+                        break
+                a = ev._alias(n.id, trace)
+                return ast.copy_location(ast.Name(id=a, ctx=n.ctx), n) if a != n.id else n
+        from sa.props._lib_a import clone
+        return T().visit(clone(expr))
 
     def _events(self, st, trace):
         if isinstance(st, ast.Assert):
@@ -199,7 +249,7 @@ def _env_label(env):
 
 
 def _check_cb(ctx, consts):
-    f = ctx.func(DEFER, "DeferredList._cbDeferred")
+    f = inlined_func(ctx, DEFER, "DeferredList._cbDeferred")
     q = Q + "DeferredList._cbDeferred"
     E = _CbEval(ctx, f, consts)
     for vals in itertools.product((True, False), repeat=len(FLAGS)):
@@ -311,7 +361,7 @@ def check(ctx):
 
 # ---------------------------------------------------------------------------------------------
 def _check_init(ctx, consts):
-    f = ctx.func(DEFER, "DeferredList.__init__")
+    f = inlined_func(ctx, DEFER, "DeferredList.__init__")
     g = ctx.cfg(f)
     q = Q + "DeferredList.__init__"
     cb = ctx.func(DEFER, "DeferredList._cbDeferred")
@@ -336,15 +386,27 @@ def _check_init(ctx, consts):
     ctx.check(len(copies) == 1 and g.must_precede(copies, [head]) is None, "init/inputs-copied", q,
               "self._deferredList is not list(deferredList) made before the callbacks are attached")
     rl = [(n, v) for n in stmt_nodes(g, lambda s: True) for t, v in targets_values(g.node(n).ast) if attr_of(t, "resultList", "self")]
+    def is_inputs(e):
+        return attr_of(e, "_deferredList", "self")
+
+    def is_count(e, depth=0):
+        """len(self._deferredList), or a local that was assigned it (once)"""
+        if isinstance(e, ast.Call) and dotted(e.func) == "len" and len(e.args) == 1 and is_inputs(e.args[0]):
+            return True
+        if isinstance(e, ast.Name) and depth < 2:
+            defs = name_assign_nodes(g, e.id)
+            vals = [v for d in defs for t, v in targets_values(g.node(d).ast) if is_name(t, e.id)]
+            return len(vals) == 1 and vals[0] is not None and is_count(vals[0], depth + 1) and g.must_precede(copies, defs) is None
+        return False
     ok = False
     for n, v in rl:
         if isinstance(v, ast.BinOp) and isinstance(v.op, ast.Mult):
             sides = [v.left, v.right]
             lst = [s for s in sides if isinstance(s, ast.List) and len(s.elts) == 1 and is_const(s.elts[0], None)]
-            ln = [s for s in sides if isinstance(s, ast.Call) and dotted(s.func) == "len" and len(s.args) == 1 and attr_of(s.args[0], "_deferredList", "self")]
-            ok = bool(lst and ln)
-        elif isinstance(v, ast.ListComp) and is_const(v.elt, None) and len(v.generators) == 1 and attr_of(v.generators[0].iter, "_deferredList", "self"):
-            ok = True
+            ok = bool(lst) and any(is_count(s) for s in sides)
+        elif isinstance(v, ast.ListComp) and is_const(v.elt, None) and len(v.generators) == 1 and not v.generators[0].ifs:
+            it = v.generators[0].iter
+            ok = is_inputs(it) or (isinstance(it, ast.Call) and dotted(it.func) == "range" and len(it.args) == 1 and is_count(it.args[0]))
     ctx.check(len(rl) == 1 and ok and g.must_precede([rl[0][0]], [head]) is None and g.must_precede(copies, [rl[0][0]]) is None,
               "init/result-list-sized", q, "resultList is not [None] * len(self._deferredList) created before the callbacks are attached")
     # flags and counter are in place before callbacks are attached (inputs may already have fired)
@@ -450,7 +512,7 @@ def _addcallbacks_sig(ctx):
 
 # ---------------------------------------------------------------------------------------------
 def _check_cancel(ctx):
-    f = ctx.func(DEFER, "DeferredList.cancel")
+    f = inlined_func(ctx, DEFER, "DeferredList.cancel")
     g = ctx.cfg(f, exception_is_all=False)
     q = Q + "DeferredList.cancel"
     heads = _loop_heads(g, lambda st: any(attr_of(x, "_deferredList", "self") for x in ast.walk(st.iter)))
@@ -486,7 +548,7 @@ def _check_cancel(ctx):
 
 # ---------------------------------------------------------------------------------------------
 def _check_gather(ctx):
-    f = ctx.func(DEFER, "gatherResults")
+    f = inlined_func(ctx, DEFER, "gatherResults")
     q = Q + "gatherResults"
     init = ctx.func(DEFER, "DeferredList.__init__")
     ps = params(f)
@@ -505,20 +567,32 @@ def _check_gather(ctx):
     g = ctx.cfg(f)
     is_parse = lambda x: isinstance(x, ast.Call) and isinstance(x.func, ast.Attribute) and x.func.attr == "addCallback" and len(x.args) == 1 \
         and is_name(x.args[0], "_parseDeferredListResult")
-    holders = {t.id for n in stmt_nodes(g, lambda s_: True) for t, v in targets_values(g.node(n).ast)
-               if isinstance(t, ast.Name) and v is not None and (v in calls or (is_parse(v) and v.func.value in calls))}
+    assigns = [(n, t.id, v) for n in stmt_nodes(g, lambda s_: True) for t, v in targets_values(g.node(n).ast) if isinstance(t, ast.Name) and v is not None]
+    holders, parsed = set(), set()      # locals holding the DeferredList / holding it after addCallback(_parseDeferredListResult)
+
+    def is_list(e):
+        return e in calls or (is_name(e) and e.id in holders)
+    for _ in range(3):
+        for n, name, v in assigns:
+            if is_list(v):
+                holders.add(name)
+            if (is_parse(v) and is_list(v.func.value)) or (is_name(v) and v.id in parsed):
+                parsed.add(name)
+                holders.add(name)
     ok = True
     for r in stmt_nodes(g, lambda s_: isinstance(s_, ast.Return)):
         v = g.node(r).ast.value
-        if is_parse(v) and (v.func.value in calls or (is_name(v.func.value) and v.func.value.id in holders)):
+        if is_parse(v) and is_list(v.func.value):
             continue            # return <DeferredList>.addCallback(_parseDeferredListResult)
+        if is_name(v) and v.id in parsed:
+            continue            # gathered = aggregate.addCallback(_parse...); return gathered
         if is_name(v) and v.id in holders:
-            adds = call_nodes(g, lambda c: is_parse(c) and ((is_name(c.func.value) and c.func.value.id == v.id) or c.func.value in calls))
+            adds = call_nodes(g, lambda c: is_parse(c) and is_list(c.func.value))
             if adds and avoiding_path(g, [g.entry], [r], adds) is None:
                 continue        # d = DeferredList(...); d.addCallback(_parse...); return d
         ok = False
     ctx.check(ok, "gather/extracts-values", q, "the (success, value) pairs are not reduced to values by _parseDeferredListResult")
-    pf = ctx.func(DEFER, "_parseDeferredListResult")
+    pf = inlined_func(ctx, DEFER, "_parseDeferredListResult")
     pq = Q + "_parseDeferredListResult"
     prets = [st for st in ast.walk(pf) if isinstance(st, ast.Return)]
     good = False
@@ -530,12 +604,34 @@ def _check_gather(ctx):
                 good = True
             if isinstance(gen.target, ast.Tuple) and len(gen.target.elts) == 2 and isinstance(lc.elt, ast.Name) and is_name(gen.target.elts[1], lc.elt.id):
                 good = True
+    if not good and len(prets) == 1 and is_name(prets[0].value):
+        # values = []; for item in resultList: values.append(item[1]); return values
+        V = prets[0].value.id
+        pg = ctx.cfg(pf)
+        inits = [d for d in name_assign_nodes(pg, V) if any(is_name(t, V) and isinstance(v, ast.List) and not v.elts for t, v in targets_values(pg.node(d).ast))]
+        heads = _loop_heads(pg, lambda st: is_name(st.iter, params(pf)[0]) and isinstance(st.target, (ast.Name, ast.Tuple)))
+        muts = _mutations(pg, V)
+        for h in heads:
+            tgt = pg.node(h).ast.target
+            def takes_value(c):
+                if not (method_call(c, "append", V) and len(c.args) == 1):
+                    return False
+                a = c.args[0]
+                if isinstance(tgt, ast.Name):
+                    return isinstance(a, ast.Subscript) and is_name(a.value, tgt.id) and const_int(a.slice) == 1
+                return len(tgt.elts) == 2 and is_name(a) and is_name(tgt.elts[1], a.id)
+            apps = call_nodes(pg, takes_value)
+            if (len(inits) == 1 and len(name_assign_nodes(pg, V)) == 1 and apps and sorted(muts) == sorted(apps)
+                    and all(pg.path([h], [a], strict=True) and pg.path([a], [h], strict=True) for a in apps)
+                    and avoiding_path(pg, succ_on(pg, [h], "iter"), [h], apps, strict=False) is None and _no_early_exit(pg, h) is None
+                    and pg.must_precede(inits, [h]) is None):
+                good = True
     ctx.check(good, "gather/values-in-input-order", pq, "_parseDeferredListResult does not return [pair[1] for pair in resultList] in list order")
 
 
 # ---------------------------------------------------------------------------------------------
 def _check_race(ctx):
-    f = ctx.func(DEFER, "race")
+    f = inlined_func(ctx, DEFER, "race")
     g = ctx.cfg(f)
     q = Q + "race"
     ds = params(f)[0]
@@ -608,7 +704,7 @@ def _check_race(ctx):
     ctx.check(sname == by_cb[0] and fname == by_eb[0], "race/closure-roles", q,
               f"registered (success, failure) callbacks are ({sname}, {fname}); the closure calling back the result is {by_cb[0]}, the one errbacking it {by_eb[0]}")
     sname, fname = by_cb[0], by_eb[0]
-    sf, ff = ctx.func(DEFER, f"race.{sname}"), ctx.func(DEFER, f"race.{fname}")
+    sf, ff = inlined_func(ctx, DEFER, f"race.{sname}"), inlined_func(ctx, DEFER, f"race.{fname}")
     # ---- succeeded -----------------------------------------------------------------------------
     sg = ctx.cfg(sf)
     sq = Q + f"race.{sname}"
@@ -626,7 +722,15 @@ def _check_race(ctx):
                   "race/winner-shared", q + f" | {Wn} = None", "the winner is not initialised to None in race()")
         wsubj = lambda e: is_name(e, Wn)
         fires = call_nodes(sg, lambda c: method_call(c, "callback", F))
-        sheads = _loop_heads(sg, lambda st: is_name(st.iter, L))
+        filtered = {}     # local -> node of `local = [x for x in L if x is not winner]`
+        for n_ in stmt_nodes(sg, lambda s_: True):
+            for t, v in targets_values(sg.node(n_).ast):
+                if isinstance(t, ast.Name) and isinstance(v, ast.ListComp) and len(v.generators) == 1 and is_name(v.generators[0].iter, L) \
+                        and isinstance(v.generators[0].target, ast.Name) and is_name(v.elt, v.generators[0].target.id) and len(v.generators[0].ifs) == 1 \
+                        and ident_fact(v.generators[0].ifs[0], True, lambda e: is_name(e, v.generators[0].target.id), wsubj) is False \
+                        and len(name_assign_nodes(sg, t.id)) == 1:
+                    filtered[t.id] = n_
+        sheads = _loop_heads(sg, lambda st: is_name(st.iter, L) or (isinstance(st.iter, ast.Name) and st.iter.id in filtered))
         ctx.check(len(sheads) == 1, "race/losers-cancelled", sq, "no loop over the copied inputs cancels the losers")
         for n in fires + [wn]:
             ctx.check(known_none(sg, n, wsubj, falsy_is_none=True) is True, "race/first-success-only", ctx.construct(sq, sg.node(n).ast),
@@ -660,8 +764,14 @@ def _check_race(ctx):
                       "`succeeded` with winner still None and the result fires twice", witness=sg.describe(wit))
             wit = _no_early_exit(sg, head)
             ctx.check(wit is None, "race/losers-cancelled", sq + " | <loop covers every input>", "the cancel loop can stop early", witness=sg.describe(wit))
+            pre = filtered.get(sg.node(head).ast.iter.id) if isinstance(sg.node(head).ast.iter, ast.Name) else None
+            if pre is not None:
+                # the loop runs over the precomputed losers: the list must be computed after the winner is known
+                wit = sg.must_precede([wn], [pre])
+                ctx.check(wit is None, "race/winner-not-cancelled", ctx.construct(sq, sg.node(pre).ast),
+                          "the list of losers is computed before the winner is recorded (it would contain the winner)", witness=sg.describe(wit))
             for o in outs:
-                ctx.check(known_ident(sg, o, lambda e: isinstance(dv, ast.Name) and is_name(e, dv.id), wsubj) is False, "race/winner-not-cancelled",
+                ctx.check(pre is not None or known_ident(sg, o, lambda e: isinstance(dv, ast.Name) and is_name(e, dv.id), wsubj) is False, "race/winner-not-cancelled",
                           ctx.construct(sq, "<loser>.cancel()"), "the winning input itself is cancelled (its owner is still using it)")
             # every non-winner is cancelled: the only way round the call-out inside an iteration is `d is winner`
             itests = {t.id for t in sg.nodes if t.kind == "test" and isinstance(dv, ast.Name) and
@@ -738,6 +848,11 @@ def _check_race(ctx):
             if comp is not None and len(comp.generators) == 1 and not comp.generators[0].ifs:
                 gen = comp.generators[0]
                 itx = gen.iter
+                if isinstance(itx, ast.Name) and not is_name(itx, FS):
+                    # a local holding sorted(failure_state) (assigned once)
+                    vals = [v for d_ in name_assign_nodes(fg, itx.id) for t, v in targets_values(fg.node(d_).ast) if is_name(t, itx.id)]
+                    if len(vals) == 1 and vals[0] is not None:
+                        itx = vals[0]
                 if isinstance(itx, ast.Call) and dotted(itx.func) == "sorted" and len(itx.args) == 1 and not itx.keywords:
                     sorted_inline, itx = True, itx.args[0]
                 if is_name(itx, FS):
@@ -765,7 +880,7 @@ def _check_race(ctx):
 
     # ---- cancel closure ------------------------------------------------------------------------
     if is_name(canc):
-        cf = ctx.func(DEFER, f"race.{canc.id}")
+        cf = inlined_func(ctx, DEFER, f"race.{canc.id}")
         cg_ = ctx.cfg(cf)
         cq = Q + f"race.{canc.id}"
         cheads = _loop_heads(cg_, lambda st: is_name(st.iter, L))
@@ -932,4 +1047,23 @@ SILENT = [
            "        self.finishedCount += 1\n        if self.called:\n            return None if (not succeeded and self.consumeErrors) else result\n        if True:\n            if succeeded == SUCCESS and self.fireOnOneCallback:"),
     Silent("gather-positional-arguments", D, "        deferredList, fireOnOneErrback=True, consumeErrors=consumeErrors\n", "        deferredList, False, True, consumeErrors\n"),
     Silent("race-inputs-filled-by-own-loop-first", D, "    to_cancel = list(ds)\n", "    to_cancel = []\n    for each in ds:\n        to_cancel.append(each)\n"),
+    Silent("cbDeferred-firing-extracted-with-temporaries", D,
+           "        self.resultList[index] = (succeeded, result)\n\n        self.finishedCount += 1\n        if not self.called:\n            if succeeded == SUCCESS and self.fireOnOneCallback:\n                self.callback((result, index))  # type: ignore[arg-type]\n            elif succeeded == FAILURE and self.fireOnOneErrback:\n                assert isinstance(result, Failure)\n                self.errback(Failure(FirstError(result, index)))\n            elif self.finishedCount == len(self.resultList):\n                # At this point, None values in self.resultList have been\n                # replaced by result values, so we cast it to\n                # _DeferredListResultListT to match the callback result type.\n                self.callback(cast(_DeferredListResultListT[Any], self.resultList))\n\n        if succeeded == FAILURE and self.consumeErrors:\n            return None\n\n        return result\n",
+           "        failed = succeeded == FAILURE\n        self.resultList[index] = (succeeded, result)\n        self.finishedCount += 1\n        self._maybeFire(result, index, failed)\n        if failed and self.consumeErrors:\n            return None\n        return result\n\n    def _maybeFire(self, outcome, position, failed):\n        if self.called:\n            return\n        if not failed and self.fireOnOneCallback:\n            self.callback((outcome, position))\n            return\n        if failed and self.fireOnOneErrback:\n            self.errback(Failure(FirstError(outcome, position)))\n            return\n        allDone = self.finishedCount == len(self.resultList)\n        if allDone:\n            self.callback(self.resultList)\n"),
+    Silent("registration-extracted-into-helper", D, "            deferred.addCallbacks(\n                self._cbDeferred,\n                self._cbDeferred,\n                callbackArgs=(index, SUCCESS),\n                errbackArgs=(index, FAILURE),\n            )\n            index = index + 1\n",
+           "            self._watch(deferred, index)\n            index = index + 1\n",
+           more=[(D, "    def _cbDeferred(\n        self, result: _SelfResultT, index: int, succeeded: bool\n", "    def _watch(self, d, position):\n        d.addCallbacks(self._cbDeferred, self._cbDeferred, callbackArgs=(position, SUCCESS), errbackArgs=(position, FAILURE))\n\n    def _cbDeferred(\n        self, result: _SelfResultT, index: int, succeeded: bool\n")]),
+    Silent("cbDeferred-flattened-with-named-comparisons", D,
+           "        if not self.called:\n            if succeeded == SUCCESS and self.fireOnOneCallback:\n                self.callback((result, index))  # type: ignore[arg-type]\n            elif succeeded == FAILURE and self.fireOnOneErrback:\n                assert isinstance(result, Failure)\n                self.errback(Failure(FirstError(result, index)))\n            elif self.finishedCount == len(self.resultList):",
+           "        wasSuccess = SUCCESS == succeeded\n        wasFailure = FAILURE == succeeded\n        if self.called:\n            pass\n        elif wasFailure and self.fireOnOneErrback:\n            problem = FirstError(result, index)\n            self.errback(Failure(problem))\n        elif wasSuccess and self.fireOnOneCallback:\n            self.callback((result, index))\n        elif len(self.resultList) == self.finishedCount:\n            if True:",
+           more=[(D, "        if succeeded == FAILURE and self.consumeErrors:\n            return None\n\n        return result\n", "        return None if wasFailure and self.consumeErrors else result\n")]),
+    Silent("gather-through-locals-and-explicit-loop", D, "    return DeferredList(\n        deferredList, fireOnOneErrback=True, consumeErrors=consumeErrors\n    ).addCallback(_parseDeferredListResult)\n",
+           "    whole = DeferredList(deferredList, fireOnOneErrback=True, consumeErrors=consumeErrors)\n    onlyValues = whole.addCallback(_parseDeferredListResult)\n    return onlyValues\n",
+           more=[(D, "    return [x[1] for x in resultList]\n", "    out = []\n    for pair in resultList:\n        out.append(pair[1])\n    return out\n"),
+                 (D, "        self.resultList: List[Optional[_DeferredListResultItemT[Any]]] = [None] * len(\n            self._deferredList\n        )\n",
+                  "        howMany = len(self._deferredList)\n        self.resultList = [None for _ in range(howMany)]\n")]),
+    Silent("race-losers-precomputed-and-sorted-copy", D,
+           "            for d in to_cancel:\n                if d is not winner:\n                    d.cancel()\n",
+           "            others = [d for d in to_cancel if d is not winner]\n            for other in others:\n                other.cancel()\n",
+           more=[(D, "            failure_state.sort()\n            failures = [f for (ignored, f) in failure_state]\n", "            ordered = sorted(failure_state)\n            failures = [f for (ignored, f) in ordered]\n")]),
 ]
